@@ -4,6 +4,7 @@ package cacheutil
 
 import (
 	"fmt"
+	"runtime"
 	"sort"
 	"strings"
 	"testing"
@@ -44,7 +45,9 @@ type verifCache interface {
 	add(k int, v *verifVal) (*verifVal, func(bool), bool)
 	get(k int) (*verifVal, func(bool), bool)
 	remove(k int)
-	expire(k int)
+	// expire makes the entry under k expire.  viaTimer: the PRODUCTION timer function of the entry
+	// ran (on the timer goroutine); ok=false: it was made to fire but the entry is still cached.
+	expire(k int) (viaTimer bool, ok bool)
 	// length returns the number of cached entries, or (_, false) if it cannot be observed.
 	length() (int, bool)
 	// peek returns the value the real cache currently stores under k without side effects, or
@@ -54,7 +57,42 @@ type verifCache interface {
 
 func verifKey(k int) string { return fmt.Sprintf("k%d", k) }
 
-type verifTTL struct{ c *TTLCache }
+type verifTTL struct {
+	c *TTLCache
+	// real: expiry is driven by firing the entry's own timer, so that the function the tree under
+	// test gave to time.AfterFunc runs (not a copy of what it did when the shim was written)
+	real bool
+}
+
+// verifAwait waits until cond holds.  No fixed time limit decides: after a short spin it measures how
+// late timers and goroutines currently run by round trips of canary timers that take the same way
+// as the awaited function (time.AfterFunc(0) -> new goroutine); it gives up only when 50 canaries armed
+// AFTER the awaited timer have fired and run and 5 s have passed, i.e. machine load alone
+// cannot make it return false.
+func verifAwait(cond func() bool) bool {
+	start := time.Now()
+	canaries := 0
+	for i := 0; ; i++ {
+		if cond() {
+			return true
+		}
+		if i < 200 {
+			runtime.Gosched()
+			continue
+		}
+		ch := make(chan struct{})
+		time.AfterFunc(0, func() { close(ch) })
+		<-ch
+		canaries++
+		if cond() {
+			return true
+		}
+		if canaries >= 50 && time.Since(start) > 5*time.Second {
+			return false
+		}
+		time.Sleep(100 * time.Microsecond)
+	}
+}
 
 func (t verifTTL) add(k int, v *verifVal) (*verifVal, func(bool), bool) {
 	r, d, a := t.c.Add(verifKey(k), v)
@@ -67,8 +105,16 @@ func (t verifTTL) get(k int) (*verifVal, func(bool), bool) {
 	}
 	return r.(*verifVal), d, true
 }
-func (t verifTTL) remove(k int)        { t.c.Remove(verifKey(k)) }
-func (t verifTTL) expire(k int)        { verifC10Expire(t.c, verifKey(k)) }
+func (t verifTTL) remove(k int) { t.c.Remove(verifKey(k)) }
+func (t verifTTL) expire(k int) (bool, bool) {
+	if t.real {
+		if gone, armed := verifC10FireTimer(t.c, verifKey(k)); armed {
+			return true, verifAwait(gone)
+		}
+	}
+	verifC10Expire(t.c, verifKey(k)) // key not cached (or no access to the timer): the copy of the timer function
+	return false, true
+}
 func (t verifTTL) length() (int, bool) { return verifC10TTLLen(t.c) }
 func (t verifTTL) peek(k int) (*verifVal, bool, bool) {
 	v, ok, can := verifC10TTLPeek(t.c, verifKey(k))
@@ -92,25 +138,26 @@ func (l verifLRU) get(k int) (*verifVal, func(bool), bool) {
 	return r.(*verifVal), func(bool) { d() }, true
 }
 func (l verifLRU) remove(k int)                       { l.c.Remove(verifKey(k)) }
-func (l verifLRU) expire(k int)                       { panic("no timer in LRUCache") }
+func (l verifLRU) expire(k int) (bool, bool)          { panic("no timer in LRUCache") }
 func (l verifLRU) length() (int, bool)                { return verifC10LRULen(l.c) }
 func (l verifLRU) peek(k int) (*verifVal, bool, bool) { return nil, false, false }
 
 // verifHist is one history on one fresh cache, with the oracle's view of it.
 type verifHist struct {
-	out    *verifutil.Out
-	c      verifCache
-	lru    bool
-	cap    int
-	pfx    string
-	vals   []*verifVal
-	nextID int
-	toks   []*verifTok
-	cur    map[int]*verifVal // oracle: key -> cached value
-	order  []int             // oracle (LRU only): keys, most recently used first
-	fired  []*verifVal       // callbacks during the current operation
-	shape  strings.Builder
-	desc   string
+	out         *verifutil.Out
+	c           verifCache
+	lru         bool
+	cap         int
+	pfx         string
+	vals        []*verifVal
+	nextID      int
+	toks        []*verifTok
+	cur         map[int]*verifVal // oracle: key -> cached value
+	order       []int             // oracle (LRU only): keys, most recently used first
+	fired       []*verifVal       // callbacks during the current operation
+	lastDropped *verifVal         // what the last drop() took out of the cache (nil: nothing)
+	shape       strings.Builder
+	desc        string
 }
 
 func (h *verifHist) onEvicted(key string, value any) {
@@ -122,11 +169,14 @@ func (h *verifHist) onEvicted(key string, value any) {
 	h.fired = append(h.fired, v)
 }
 
-func verifNewTTL(out *verifutil.Out, desc string) *verifHist {
+func verifNewTTL(out *verifutil.Out, desc string) *verifHist { return verifNewTTLx(out, desc, true) }
+
+// verifNewTTLx: real = expiry through the entry's production timer (see verifTTL.real).
+func verifNewTTLx(out *verifutil.Out, desc string, real bool) *verifHist {
 	h := &verifHist{out: out, pfx: "t", cur: map[int]*verifVal{}, desc: desc}
 	c := NewTTLCache(1000 * time.Hour)
 	c.OnEvicted = h.onEvicted
-	h.c = verifTTL{c}
+	h.c = verifTTL{c, real}
 	out.Comment(desc)
 	out.Emit("t.new", "ok")
 	return h
@@ -162,7 +212,9 @@ func (h *verifHist) touch(k int) { // LRU: move key to front
 }
 
 func (h *verifHist) drop(k int) { // value under k leaves the cache
+	h.lastDropped = nil
 	if v, ok := h.cur[k]; ok {
+		h.lastDropped = v
 		v.cached = false
 		delete(h.cur, k)
 	}
@@ -315,14 +367,30 @@ func (h *verifHist) remove(k int) {
 }
 
 func (h *verifHist) expire(k int) {
-	h.c.expire(k)
+	// the callbacks of an expiry run on the timer goroutine; verifAwait's lock round trip orders them
+	// before the reads below
+	viaTimer, ok := h.c.expire(k)
+	if !ok {
+		h.fail("timer-expiry-no-effect", fmt.Sprintf("the timer of key %d fired (and 50 later timers ran) but the entry is still cached", k))
+	}
 	h.drop(k)
-	h.shape.WriteByte('X')
+	if viaTimer {
+		h.shape.WriteByte('x')
+		h.out.Count(h.pfx + ".expire-real-timer")
+		if v := h.lastDropped; v != nil && v.held > 0 {
+			h.out.Count(h.pfx + ".expire-real-timer-while-held")
+		}
+	} else {
+		h.shape.WriteByte('X')
+	}
 	h.out.Count(h.pfx + ".expire")
 	h.finish(fmt.Sprintf("%s.expire %d", h.pfx, k), "unit")
 }
 
 func (h *verifHist) done(tok int, evict bool) {
+	if tok < 0 { // a scripted Get that should have hit missed (already reported): nothing to release
+		return
+	}
 	t := h.toks[tok]
 	// the holder looks at its value right before giving it up: it must still be open
 	if !t.released && t.v.calls > 0 {
@@ -423,7 +491,7 @@ func verifScenarios(out *verifutil.Out) {
 	h.get(0)
 	h.drain(2)
 
-	h = verifNewTTL(out, "ttl: expiry of a held value")
+	h = verifNewTTL(out, "ttl: expiry of a held value (production timer)")
 	t0 = h.add(1)
 	t1 = h.get(1)
 	h.expire(1)
@@ -464,6 +532,87 @@ func verifScenarios(out *verifutil.Out) {
 	h.get(0)
 	h.add(0)
 	h.drain(1)
+
+	// --- a value that is HELD when its ttl fires, and is asked for again before its last holder
+	// lets go (expiry through the production timer function; all orders of the same shape)
+	h = verifNewTTL(out, "ttl: held across expiry, Get, every holder done(false), Get")
+	t0 = h.add(0)
+	h.expire(0)
+	t1 = h.get(0) // the value left the cache: miss
+	h.done(t0, false)
+	if t1 >= 0 {
+		h.done(t1, false)
+		h.done(t1, false)
+	}
+	h.get(0)
+	h.add(0)
+	h.drain(1)
+
+	h = verifNewTTL(out, "ttl: held across expiry, Add, every holder done(false), Get")
+	t0 = h.add(0)
+	t1 = h.get(0)
+	h.expire(0)
+	t2 = h.add(0) // a NEW value is added, the expired one is not handed out again
+	h.done(t0, false)
+	h.done(t1, false)
+	h.done(t2, false)
+	t2 = h.get(0)
+	h.done(t2, false)
+	h.get(0)
+	h.drain(1)
+
+	h = verifNewTTL(out, "ttl: held across expiry, Get + Add, second expiry, releases, Get")
+	t0 = h.add(0)
+	h.expire(0)
+	h.get(0)
+	t1 = h.add(0)
+	h.expire(0)
+	h.get(0)
+	h.done(t1, false)
+	h.done(t0, false)
+	h.get(0)
+	h.add(0)
+	h.expire(0)
+	h.drain(1)
+
+	h = verifNewTTL(out, "ttl: held across expiry, Add, old holder done(true), new holder done(false), Get")
+	t0 = h.add(0)
+	h.expire(0)
+	t1 = h.add(0)
+	h.done(t0, true)
+	h.done(t1, false)
+	t2 = h.get(0)
+	h.done(t2, false)
+	h.get(0)
+	h.drain(1)
+
+	h = verifNewTTL(out, "ttl: held across expiry, Get, Remove, releases, Get, Add")
+	t0 = h.add(1)
+	h.expire(1)
+	t1 = h.get(1)
+	h.remove(1)
+	h.done(t0, false)
+	if t1 >= 0 {
+		h.done(t1, false)
+	}
+	h.get(1)
+	h.add(1)
+	h.get(1)
+	h.drain(2)
+
+	h = verifNewTTL(out, "ttl: two keys held across expiry, asked for crosswise")
+	t0 = h.add(0)
+	t1 = h.add(1)
+	h.expire(1)
+	h.expire(0)
+	h.get(1)
+	t2 = h.add(0)
+	h.done(t1, false)
+	h.done(t0, false)
+	h.done(t2, false)
+	h.get(0)
+	h.get(1)
+	h.drain(2)
 
 	h = verifNewLRU(out, 1, "lru cap 1: capacity eviction while held")
 	t0 = h.add(0)
@@ -521,7 +670,9 @@ func verifRandomHistory(out *verifutil.Out, rnd *verifutil.Rand, n int) {
 	if lru {
 		h = verifNewLRU(out, rnd.Intn(4), fmt.Sprintf("random lru history %d", n))
 	} else {
-		h = verifNewTTL(out, fmt.Sprintf("random ttl history %d", n))
+		// two histories in three drive expiry through the production timer, the third through the
+		// shim's copy of it (also reaches a stale timer hitting a re-added key)
+		h = verifNewTTLx(out, fmt.Sprintf("random ttl history %d", n), n%3 != 0)
 	}
 	nops := 5 + rnd.Intn(60)
 	// per-history bias so that some histories are release-heavy, others add-heavy
